@@ -157,7 +157,8 @@ def populate_bank(ns, n_acct=3, n_item=2):
             a = ns['Acct'](name='acct%d' % i, bal=100, note='n%d' % i, rate=1.5, hits=0, tick=0)
             for j in range(n_item):
                 it = ns['Item'](acct=a, tag='i%d_%d' % (i, j), qty=j)
-                it.tags.add(tags[j % 2])
+                if not (i == n_acct - 1 and j == n_item - 1):
+                    it.tags.add(tags[j % 2])        # (the last item starts without tags: an empty collection)
             ns['Card'](code='c%d' % i, acct=a)
         ns['Card'](code='c%d' % n_acct)           # a card nobody holds
 
